@@ -19,7 +19,7 @@ META = {
     "outside": "event streams that are not the decode of an explored shape; the exact column widths (taken from the "
                "printer's own row template); text of warning rows",
     "assumptions": ["stub: Fore/Style of both printer modules replaced by colourless objects (colour codes aside)"],
-    "wall_budget_s": {"quick": 260, "thorough": 1500},
+    "wall_budget_s": {"quick": 260, "thorough": 840},
 }
 CORE = ("GetRandom", "PCR_Read", "StartAuthSession")
 CORE_THOROUGH = ("CreatePrimary", "GetCapability", "Load")
